@@ -78,7 +78,8 @@ fn pair_gap(rng: &mut Rng) -> i64 {
 fn gen(rng: &mut Rng, idx: u64, tier: Tier) -> Case {
     let n_ac = rng.range(1, 3) as usize;
     let addrs = gen::addresses(rng, n_ac + 1);
-    let mut args = vec!["--delete-after=600".to_string()];
+    let dd = *rng.pick(&[600i64, 600, 60, 5]);
+    let mut args = vec![format!("--delete-after={}", dd)];
     if rng.chance(0.5) { args.push("--use-update-method".into()); }
     if rng.chance(0.6) {
         let (la, lo) = (rng.f64() * 170.0 - 85.0, rng.f64() * 358.0 - 179.0);
@@ -195,7 +196,7 @@ fn check(case: &Case, st: &mut Stats) -> Vec<Violation> {
     let uflag = case.script.has_arg("--use-update-method");
     'steps: for (i, s) in h.steps.iter().enumerate() {
         let before = if i == 0 { &empty } else { &h.steps[i - 1].after };
-        st.state(abstract_state(&s.after, s.t_us, 600, if uflag { "U" } else { "-" }, s.tag.split(':').next().unwrap_or("")));
+        st.state(abstract_state(&s.after, s.t_us, case.script.delete_after(), if uflag { "U" } else { "-" }, s.tag.split(':').next().unwrap_or("")));
         for r in s.after.values() {
             if !(-90.0..=90.0).contains(&r.lat.0) || !(-180.0..=180.0).contains(&r.lon.0) {
                 v.push(viol("C08.wrong-position", i, format!("row {:06X} shows ({}, {}) - outside [-90,90] x [-180,180]", r.icao, r.lat.0, r.lon.0), json!({"range": true})));
